@@ -106,7 +106,7 @@ def plan(tier, seed):
         {"kind": "accessors", "depth": depth},
         {"kind": "refs", "depth": 1 if tier == "quick" else 2},
         {"kind": "reject"},
-    ]
+    ] + [{"kind": "online", "n": 25 if tier == "quick" else 300, "shard": i} for i in range(4 if tier == "quick" else 16)]
 
 
 def check_pair(PackURI, P, Q, acc, stats):
@@ -140,8 +140,12 @@ def check_pair(PackURI, P, Q, acc, stats):
 def run_unit(unit, tier, seed, acc):
     from pptx.opc.packuri import PackURI
 
-    acc.hit("PackURI.__new__")
     kind = unit["kind"]
+    if kind == "online":
+        from vlib import histories
+
+        return histories.run_online_unit("C19", unit, tier, seed, acc)
+    acc.hit("PackURI.__new__")
     if kind == "pairs":
         ns = names(unit["depth"]) + ["/"]
         stats = {"with_up": 0, "with_sub": 0}
